@@ -9,6 +9,7 @@ import (
 	"fmt"
 	"go/token"
 	"go/types"
+	"math"
 	"strings"
 )
 
@@ -110,23 +111,10 @@ func litOf(v value) *sym {
 	case string:
 		return strLit(x)
 	case float64:
-		return &sym{k: sFP, e: fmt.Sprintf("((_ to_fp 11 53) RNE %s)", fpDecimal(x))}
+		b := math.Float64bits(x)
+		return &sym{k: sFP, e: fmt.Sprintf("(fp #b%01b #b%011b #b%052b)", b>>63, (b>>52)&0x7ff, b&((1<<52)-1))}
 	}
 	panic(unsupported(fmt.Sprintf("litOf: %T", v)))
-}
-
-func fpDecimal(f float64) string {
-	s := fmt.Sprintf("%.17g", f)
-	if strings.ContainsAny(s, "eEIN") {
-		panic(unsupported("fp literal " + s))
-	}
-	if !strings.Contains(s, ".") {
-		s += ".0"
-	}
-	if strings.HasPrefix(s, "-") {
-		return "(- " + s[1:] + ")"
-	}
-	return s
 }
 
 func isSym(v value) bool { _, ok := v.(*sym); return ok }
